@@ -7,13 +7,18 @@ Line protocol for C08 (bubble and dew points).  Floats travel as `b<bits>`.
         → `id <n>`                      (instance cache; separate caches for B and D)
   pt <bubT|bubP|dewT|dewP> <P> <spec> <ret> <sat> <critSpec> <critRet> <z,…> <psat,…> <gamma,…> <phi,…> <pcf,…>
         → `ok <single|multi> val=<f> res=<f> afres=<f> frac=<f,…>`  |  `err <class>`
-          (val/res/frac of the FIXED variant; `afres` = residual of the as-found variant)
-  idealP <z,…> <kappa,…>
-        → `pb=<f> pd=<f> le=<0|1>`      (closed forms `_Py_ideal`, `_Px_ideal` on z/Σz)
-  ord <T|P> <uniq> <bub> <dew> <kappaAtBubble,…> <kappaAtDew,…>
-        → `hyp=1 le=1` | `hyp=0`        (ordering claimed only under the monitored hypotheses)
-  same <T|P> <uniq> <a> <b> <kappaAtA,…> <kappaAtB,…>
-        → `hyp=1 same=1` | `hyp=0`      (two roots of one strictly monotone equation coincide)
+          (val/res/frac of the FIXED variant, recomputed from the recorded Psat/γ/φ/pcf at the returned point;
+           `afres` = residual of the pre-repair variant)
+  ordP <uniq> <z,…> <kappaAtBubble,…> <kappaAtDew,…>
+        → `hyp=<0|1> pb=<f> pd=<f> le=<0|1>`   bubble/dew pressures implied by the recorded κ, and their order
+  ordT <uniq> <P> <z,…> <psatAtTb,…> <psatAtTd,…> <kappaAtBubble,…> <kappaAtDew,…>
+        → `hyp=<0|1> sb=<f> dd=<f> le=<0|1> mono=<0|1>`  both sums recomputed; T_b ≤ T_d read off the vapour pressures
+  sameT <uniq> <psatA,…> <psatB,…> <fracA,…> <fracB,…>
+        → `hyp=<0|1> same=<0|1>`               two temperatures are the same iff every Psat_i agrees
+  sameP <bub|dew> <uniq> <zA,…> <kappaA,…> <zB,…> <kappaB,…> <fracA,…> <fracB,…>
+        → `hyp=<0|1> pa=<f> pb=<f> same=<0|1>` implied pressures of the two calls agree
+Tolerances (see harness/props/c08.py): residual 1e-5, pressures 2e-5 relative, vapour pressures 3e-4 relative
+(= 2e-3 K at d ln Psat/dT ≤ 0.15 /K), fractions 1e-4.
 -/
 namespace Driver.C08
 open ThermoVerif.BubbleDew Driver
@@ -44,6 +49,11 @@ def errName : Err → String
 
 def b01 (b : Bool) : String := if b then "1" else "0"
 
+def resTol : Float := 1e-5
+def pTol : Float := 4e-5
+def psatTol : Float := 3e-4
+def fracTol : Float := 1e-4
+
 def step (st : St) (line : String) : St × String :=
   match splitWs line with
   | ["inst", which, g, f, c, chems] =>
@@ -71,33 +81,45 @@ def step (st : St) (line : String) : St × String :=
         | .error e, _ => (st, s!"err {errName e}")
         | _, .error e => (st, s!"err {errName e}")
     | _, _, _, _, _, _, _, _, _, _, _, _ => (st, "bad-op")
-  | ["idealP", z, k] =>
-    match floats z, floats k with
-    | some z, some k =>
-      if z.length != k.length then (st, "err shape") else
-      let zk := (normalizeZ z).zip k
-      let pb := idealBubbleP zk
-      let pd := idealDewP zk
-      (st, s!"pb={showFloat pb} pd={showFloat pd} le={b01 (pd ≤ pb * (1 + 1e-12))}")
-    | _, _ => (st, "bad-op")
-  | ["ord", kind, uniq, a, b, ka, kb] =>
-    match parseFloat? a, parseFloat? b, floats ka, floats kb with
-    | some a, some b, some ka, some kb =>
-      let pos := allPos ka && allPos kb
-      let hyp := uniq == "1" && pos && ka.length == kb.length &&
-        (if kind == "T" then monoBetween a b ka kb else true)
-      if kind != "T" && kind != "P" then (st, "bad-op")
-      else (st, if hyp then "hyp=1 le=1" else "hyp=0")
+  | ["ordP", uniq, z, kb, kd] =>
+    match floats z, floats kb, floats kd with
+    | some z, some kb, some kd =>
+      if z.length != kb.length || z.length != kd.length then (st, "err shape") else
+      let pb := impliedP true z kb
+      let pd := impliedP false z kd
+      let hyp := uniq == "1" && allPos kb && allPos kd
+      (st, s!"hyp={b01 hyp} pb={showFloat pb} pd={showFloat pd} le={b01 (pd ≤ pb * (1 + pTol))}")
+    | _, _, _ => (st, "bad-op")
+  | ["ordT", uniq, P, z, pb, pd, kb, kd] =>
+    match parseFloat? P, floats z, floats pb, floats pd, floats kb, floats kd with
+    | some P, some z, some pb, some pd, some kb, some kd =>
+      if z.length != kb.length || z.length != kd.length || z.length != pb.length || z.length != pd.length
+      then (st, "err shape") else
+      let zn := normalizeZ z
+      let sb := bubbleSum (zn.zip (kb.map (· / P)))
+      let dd := dewSum (zn.zip (kd.map (· / P)))
+      let roots := absClose resTol sb 1 && absClose resTol dd 1
+      let hyp := uniq == "1" && allPos kb && allPos kd && roots
+      -- monitor of the theorem's hypothesis (κ_i increasing between the two temperatures); reported, not gating
+      let mono := allLe psatTol kb kd
+      (st, s!"hyp={b01 hyp} sb={showFloat sb} dd={showFloat dd} le={b01 (allLe psatTol pb pd)} mono={b01 mono}")
+    | _, _, _, _, _, _ => (st, "bad-op")
+  | ["sameT", uniq, pa, pb, fa, fb] =>
+    match floats pa, floats pb, floats fa, floats fb with
+    | some pa, some pb, some fa, some fb =>
+      let hyp := uniq == "1" && allPos pa && allPos pb
+      (st, s!"hyp={b01 hyp} same={b01 (allRelClose psatTol pa pb && allAbsClose fracTol fa fb)}")
     | _, _, _, _ => (st, "bad-op")
-  | ["same", kind, uniq, a, b, ka, kb] =>
-    match parseFloat? a, parseFloat? b, floats ka, floats kb with
-    | some a, some b, some ka, some kb =>
-      let pos := allPos ka && allPos kb
-      let hyp := uniq == "1" && pos && ka.length == kb.length &&
-        (if kind == "T" then monoBetween a b ka kb else true)
-      if kind != "T" && kind != "P" then (st, "bad-op")
-      else (st, if hyp then "hyp=1 same=1" else "hyp=0")
-    | _, _, _, _ => (st, "bad-op")
+  | ["sameP", which, uniq, za, ka, zb, kb, fa, fb] =>
+    match floats za, floats ka, floats zb, floats kb, floats fa, floats fb with
+    | some za, some ka, some zb, some kb, some fa, some fb =>
+      if which != "bub" && which != "dew" then (st, "bad-op") else
+      if za.length != ka.length || zb.length != kb.length then (st, "err shape") else
+      let pa := impliedP (which == "bub") za ka
+      let pb := impliedP (which == "bub") zb kb
+      let hyp := uniq == "1" && allPos ka && allPos kb
+      (st, s!"hyp={b01 hyp} pa={showFloat pa} pb={showFloat pb} same={b01 (relClose pTol pa pb && allAbsClose fracTol fa fb)}")
+    | _, _, _, _, _, _ => (st, "bad-op")
   | _ => (st, "bad-op")
 
 def main : IO Unit := Driver.loop ({} : St) step
